@@ -316,9 +316,19 @@ def vectors(res, base, rnd):
         text = BAD_H if f["clang"] == "reject" else GOOD_H
         hp = os.path.join(cd, "in.h")
         if f["path"] == "ok":
-            open(hp, "w").write(text)
+            if i % 3 == 2:      # a symbolic link to a readable header is a readable header
+                open(hp + ".real", "w").write(text)
+                os.symlink(hp + ".real", hp)
+            else:
+                open(hp, "w").write(text)
         elif f["path"] == "dir":
-            os.makedirs(hp, exist_ok=True)
+            if i % 2 == 1:      # a symbolic link to a directory is a directory
+                os.makedirs(hp + ".d", exist_ok=True)
+                os.symlink(hp + ".d", hp)
+            else:
+                os.makedirs(hp, exist_ok=True)
+        elif f["path"] == "missing" and i % 2 == 1:
+            os.symlink(hp + ".nowhere", hp)      # a dangling symbolic link does not exist
         elif f["path"] == "unreadable":
             open(hp, "w").write(text)
             os.chmod(hp, [0o000, 0o200, 0o111, 0o333][i % 4])
@@ -462,6 +472,35 @@ def build_inputs(base, rnd, tier):
             cases.append({"id": os.path.basename(hp), "args": ["bindgen", "--formatter=none", hp] + std, "callbacks": None,
                           "header": hp, "text": text, "shape": "nesting:%s@%d" % (shape, dep), "facts": dict(facts0),
                           "deep": True})
+    # shape families of the other checks (names, layout corners, C++ inheritance with and without tail-padding
+    # reuse, templates) under option sets that switch on rarely used code paths
+    from checks import c01 as _c01, c08 as _c08
+    import gen_orders as _go
+    fams = {}
+    for n, (lang, text) in _c01.NAME_FAMILIES.items():
+        fams["fam-" + n] = (lang, text)
+    for n, (lang, text) in _c08.SHAPES.items():
+        fams["shape-" + n] = (lang, text)
+    for n, fam in _go.FAMILIES.items():
+        order = [("def", x) for x in __import__("checks.c11", fromlist=["topo"]).topo(fam)]
+        fams["graph-" + n] = (fam["lang"], _go.render(fam, order))
+    fams["cxx-layout"] = ("c++", "struct Base { Base(); int a; char b; };\nstruct Derived : Base { char c; };\n"
+                                 "struct V { virtual ~V(); int x; };\nstruct W : V { char c; };\nstruct X : W { short s; };\n"
+                                 "struct Empty {};\nstruct E2 : Empty { int i; };\nstruct E3 : Empty, E2 {};\n"
+                                 "struct VB : virtual Base { int q; };\nstruct P1 { double d; char c; };\nstruct P2 : P1 { char c2; };\n"
+                                 "struct __attribute__((packed)) PK : P1 { char z; };\nunion UU { Derived d; char raw[3]; };\n")
+    optsets = [[], ["--explicit-padding"], ["--with-derive-default", "--with-derive-hash", "--with-derive-partialeq", "--impl-debug", "--impl-partialeq"],
+               ["--enable-cxx-namespaces", "--no-layout-tests", "--explicit-padding"], ["--disable-untagged-union", "--explicit-padding"],
+               ["--rust-target", "1.64", "--use-core"]]
+    for fname, (lang, text) in sorted(fams.items()):
+        ext = ".hpp" if lang == "c++" else ".h"
+        hp = os.path.join(d, "f-%s%s" % (fname, ext))
+        with open(hp, "w") as f:
+            f.write(text)
+        std = ["--", "-std=c++14"] if lang == "c++" else ["--"]
+        for k, o in enumerate(optsets if thorough else optsets[:4]):
+            cases.append({"id": "f-%s-%d%s" % (fname, k, ext), "args": ["bindgen", "--formatter=none"] + o + [hp] + std,
+                          "callbacks": None, "header": hp, "text": text, "shape": "family:%s" % fname, "facts": dict(facts0)})
     # every edge literal in every constant-evaluating context; annotations in odd places
     for i, (shape, ext, text) in enumerate(G.literal_contexts() + G.annotations() + G.witnesses()):
         hp = os.path.join(d, "l-%04d%s" % (i, ext))
@@ -728,6 +767,41 @@ def run(res, tier):
                 if lo["case"] == c["id"] and lo["ch"] == "lib":
                     lo["key"] = key        # an aborting panic (raised inside a libclang callback): same call site
     res.notes.append("CLI: %d runs in %.0fs" % (len(cli_sel), time.time() - t2))
+
+    # ---- a hang is only believed when it reproduces alone with a generous limit ------------------
+    # (machine load must never turn into a violation: the short limit above only selects candidates)
+    hung = [o for o in obs if o["outcome"] == "hang"]
+    if hung:
+        ok_ms = sorted(out[c]["ms"] for c in out if out[c].get("outcome") == "ok" and out[c].get("ms") is not None) or [100]
+        long_limit = max(300 if tier == "thorough" else 90, int(50 * ok_ms[len(ok_ms) // 2] / 1000.0))
+        saved = TIMEOUT
+        TIMEOUT = long_limit
+        confirmed = 0
+        for o in hung[:40]:
+            c = byid[o["case"]]
+            if o["ch"] == "cli":
+                o2, key2, detail2 = run_cli(c["args"][1:], base, prefix=c.get("prefix", ()))
+            else:
+                j = {"id": c["id"], "args": c["args"], "callbacks": c.get("callbacks"), "prefix": list(c.get("prefix", ()))}
+                r1, how, se = _spawn([j], 1, "c12-confirm", timeout=long_limit, prefix=j.get("prefix", ()))
+                if c["id"] in r1:
+                    o2, key2 = lib_obs(r1[c["id"]])
+                    detail2 = r1[c["id"]].get("msg", "")
+                elif how == "timeout":
+                    o2, key2, detail2 = "hang", "hang", "no result within %ds, alone" % long_limit
+                else:
+                    o2, key2, detail2 = "signal", "signal:exit", "%s %s" % (how, se[-300:])
+            if o2 == "hang":
+                confirmed += 1
+                o["msg"] = "confirmed alone with a limit of %ds" % long_limit
+            else:
+                o["outcome"], o["key"], o["msg"] = o2, key2, (detail2 or "")[:300]
+        for o in hung[40:]:
+            o["outcome"], o["key"] = "ok", ""      # beyond the budget for confirmation: not judged
+            o["skip"] = True
+        TIMEOUT = saved
+        res.notes.append("hang candidates: %d, confirmed alone within %ds: %d" % (len(hung), long_limit, confirmed))
+        obs = [o for o in obs if not o.get("skip")]
 
     # ---- T: TLC validates every observation against Outcome -------------------------------------
     with open(os.path.join(base, "observations.ndjson"), "w") as f:
